@@ -134,4 +134,119 @@ theorem spawn_living (t : St) (ids : List Nat) (h : validIds t.ncomp ids = true)
   show nth false (t.living ++ [true]) t.living.length = true
   rw [nth_append_len]
 
+
+theorem compsOf_eq (t : St) (i : Nat) : t.compsOf i = nth [] t.comps i := rfl
+
+/-- the component ids of an existing name never change -/
+theorem step_compsOf (t : St) (op : Op) (i : Nat) (hc : t.comps.length = t.living.length) (hi : i < t.n) :
+    (step t op).1.compsOf i = t.compsOf i := by
+  have hi' : i < t.comps.length := by rw [hc]; exact hi
+  have hfold : ∀ (l : List Nat) (t : St), (l.foldl St.kill t).comps = t.comps := by
+    intro l
+    induction l with
+    | nil => intro t; rfl
+    | cons h l ih => intro t; rw [List.foldl_cons, ih]; rfl
+  cases op with
+  | spawn ids =>
+    simp only [step]; split
+    · show nth [] (t.comps ++ [ids]) i = _
+      rw [nth_append_left [] _ _ i hi']; rfl
+    · rfl
+  | spawnN n ids =>
+    simp only [step]; split
+    · show nth [] (t.comps ++ List.replicate n ids) i = _
+      rw [nth_append_left [] _ _ i hi']; rfl
+    · rfl
+  | kill h => simp only [step]; split <;> rfl
+  | killN l =>
+    simp only [step]; split
+    · show nth [] (l.foldl St.kill t).comps i = _
+      rw [hfold]; rfl
+    · rfl
+  | write h c v => simp only [step]; split <;> (try split) <;> rfl
+  | rwrite h c v => simp only [step]; split <;> (try split) <;> rfl
+  | reg => rfl
+  | rereg k => simp only [step]; split <;> rfl
+  | alive h => simp only [step]; split <;> rfl
+  | read h c => simp only [step]; split <;> rfl
+  | rread h c => simp only [step]; split <;> rfl
+  | query f => rfl
+  | qiter c f => simp only [step]; split <;> rfl
+  | alive0 => rfl
+  | kill0 => rfl
+
+/-- the operations that write the cell `(i, c)` -/
+def writes : Op → Nat → Nat → Bool
+  | .write h c' _, i, c => h == i && c' == c
+  | .rwrite h c' _, i, c => h == i && c' == c
+  | _, _, _ => false
+
+/-- a component value changes only by a write to exactly that `(entity, component)` -/
+theorem step_data (t : St) (op : Op) (i c : Nat) (hw : writes op i c = false) :
+    (step t op).1.data i c = t.data i c := by
+  have hfold : ∀ (l : List Nat) (t : St), (l.foldl St.kill t).data = t.data := by
+    intro l
+    induction l with
+    | nil => intro t; rfl
+    | cons h l ih => intro t; rw [List.foldl_cons, ih]; rfl
+  cases op with
+  | write h c' v =>
+    simp only [writes, Bool.and_eq_false_iff, beq_eq_false_iff_ne] at hw
+    simp only [step]; split
+    · split
+      · show (if i = h ∧ c = c' then v else t.data i c) = _
+        have : ¬ (i = h ∧ c = c') := by
+          intro ⟨a, b⟩; rcases hw with hw | hw
+          · exact hw a.symm
+          · exact hw b.symm
+        simp [this]
+      · rfl
+    · rfl
+  | rwrite h c' v =>
+    simp only [writes, Bool.and_eq_false_iff, beq_eq_false_iff_ne] at hw
+    simp only [step]; split
+    · split
+      · show (if i = h ∧ c = c' then v else t.data i c) = _
+        have : ¬ (i = h ∧ c = c') := by
+          intro ⟨a, b⟩; rcases hw with hw | hw
+          · exact hw a.symm
+          · exact hw b.symm
+        simp [this]
+      · rfl
+    · rfl
+  | spawn ids => simp only [step]; split <;> rfl
+  | spawnN n ids => simp only [step]; split <;> rfl
+  | kill h => simp only [step]; split <;> rfl
+  | killN l =>
+    simp only [step]; split
+    · show (l.foldl St.kill t).data i c = _
+      rw [hfold]
+    · rfl
+  | reg => rfl
+  | rereg k => simp only [step]; split <;> rfl
+  | alive h => simp only [step]; split <;> rfl
+  | read h c => simp only [step]; split <;> rfl
+  | rread h c => simp only [step]; split <;> rfl
+  | query f => rfl
+  | qiter c f => simp only [step]; split <;> rfl
+  | alive0 => rfl
+  | kill0 => rfl
+
+theorem read_out (t : St) (i c : Nat) (hi : i < t.n) :
+    (step t (.read i c)).2 = if t.isLiving i && has (t.compsOf i) c then .val (t.data i c) else .nil := by
+  simp only [step, hi, if_true]
+
+/-- the answer to `read i c` is unchanged by any operation that neither writes `(i, c)` nor
+annihilates `i` -/
+theorem step_read (t : St) (op : Op) (i c : Nat) (hc : t.comps.length = t.living.length) (hi : i < t.n)
+    (hw : writes op i c = false) (hk : kills op i = false) :
+    (step (step t op).1 (.read i c)).2 = (step t (.read i c)).2 := by
+  have h1 := step_living t op i hi
+  rw [hk] at h1
+  simp only [Bool.false_and, Bool.not_false, Bool.and_true] at h1
+  have h2 := step_compsOf t op i hc hi
+  have h3 := step_data t op i c hw
+  have h4 : i < (step t op).1.n := Nat.lt_of_lt_of_le hi (step_n_mono t op)
+  rw [read_out _ i c h4, read_out t i c hi, h1, h2, h3]
+
 end MV.Lemmas.ECSSpec
